@@ -85,27 +85,64 @@ func (ms *Modules) Read(name string) error {
 
 // Parse parses data as YANG source and adds it to ms.  The name should reflect
 // the source of data.
-// Note: If an error is returned, valid modules might still have been added to
-// the Modules cache.
+// If an error is returned, nothing of data has been added to ms, also when
+// data holds several modules and only a later one is rejected.
 func (ms *Modules) Parse(data, name string) error {
 	ss, err := Parse(data, name)
 	if err != nil {
 		return err
 	}
+	// With more than one module in data, remember the module tables so that
+	// a rejected module does not leave the ones before it behind.
+	var savedMods, savedSubs map[string]*Module
+	if len(ss) > 1 {
+		savedMods, savedSubs = copyModuleMap(ms.Modules), copyModuleMap(ms.SubModules)
+	}
+	// Typedefs are collected in scratch dictionaries so that rejected data
+	// leaves nothing behind.
+	var tds []*typeDictionary
 	for _, s := range ss {
-		// Typedefs are collected in a scratch dictionary so that a
-		// rejected module leaves nothing behind.
 		td := newTypeDictionary()
 		n, err := buildASTWithTypeDict(s, td)
+		if err == nil {
+			err = ms.add(n)
+		}
 		if err != nil {
+			if savedMods != nil {
+				restoreModuleMap(ms.Modules, savedMods)
+				restoreModuleMap(ms.SubModules, savedSubs)
+				ms.nsMu.Lock()
+				ms.byNS = map[string]*Module{}
+				ms.nsMu.Unlock()
+			}
 			return err
 		}
-		if err := ms.add(n); err != nil {
-			return err
-		}
+		tds = append(tds, td)
+	}
+	for _, td := range tds {
 		ms.typeDict.merge(td)
 	}
 	return nil
+}
+
+// copyModuleMap returns a copy of m.
+func copyModuleMap(m map[string]*Module) map[string]*Module {
+	c := make(map[string]*Module, len(m))
+	for k, v := range m {
+		c[k] = v
+	}
+	return c
+}
+
+// restoreModuleMap makes m hold what saved holds, in place.
+func restoreModuleMap(m, saved map[string]*Module) {
+	for k := range m {
+		if v, ok := saved[k]; ok {
+			m[k] = v
+		} else {
+			delete(m, k)
+		}
+	}
 }
 
 // GetModule returns the Entry of the module named by name.  GetModule will
